@@ -524,7 +524,7 @@ func faultRun(args []string) error {
 	sort.Strings(names)
 	for i := 0; i < *extra; i++ {
 		base := reps[names[i%len(names)]]
-		switch i % 6 {
+		switch i % 8 {
 		case 5:
 			// tag-value text around the version tag: bytes before it, values after it
 			pre := pick(r, []string{"", "\xff", "\xff\xfe\xfd", "\u023a\u023e", "  ", "# ", "\xc3"})
@@ -536,6 +536,16 @@ func faultRun(args []string) error {
 				pre = "PackageName: x\nPackageComment: <text>unterminated comment\nstill inside\n" + pre
 			}
 			runCase("tag-value", nil, []byte(pre+"SPDXVersion:"+val+tail))
+		case 6:
+			// lines that start with something a line-based detector looks for
+			runCase("schema-lines", nil, []byte(pick(r, []string{"http://cyclonedx.org/schema/bom/1.4\n", "http://cyclonedx.org/schema/bom/\nxmlns\n",
+				"<bom xmlns=\"\nhttp://cyclonedx.org/schema/bom/1.5\">", "\"http://cyclonedx.org/schema/bom/1.4", "SPDXVersion", "bomFormat\nCycloneDX"})))
+		case 7:
+			// dates that are text in another script (multi-byte, under 64 characters, over 64 bytes)
+			d := strings.Repeat("二〇二四年", 5+r.Intn(6))
+			doc := `{"spdxVersion":"SPDX-2.3","dataLicense":"CC0-1.0","SPDXID":"SPDXRef-DOCUMENT","name":"n","documentNamespace":"https://e.org/ns","creationInfo":{"created":"` + d +
+				`","creators":["Tool: t"]},"packages":[{"SPDXID":"SPDXRef-a","name":"a","downloadLocation":"NOASSERTION","releaseDate":"` + d + `","builtDate":"` + d + `","validUntilDate":"` + d + `"}]}`
+			runCase("multibyte-dates", nil, []byte(doc))
 		case 0:
 			b := make([]byte, r.Intn(200))
 			r.Read(b)
